@@ -2,15 +2,23 @@
 """seed_prompt.py CNN: creates the scratch worktree /tmp/seed-CNN and prints the prompt for a fresh seeding sub-agent."""
 import json, os, subprocess, sys
 pid = sys.argv[1]
+rnd = sys.argv[2] if len(sys.argv) > 2 else ""
 prop = None
 for line in open('/verif/properties.jsonl'):
     p = json.loads(line)
     if p['id'] == pid: prop = p
-wt = '/tmp/seed-%s' % pid
-out = '/tmp/seed-%s-out' % pid
+wt = '/tmp/seed%s-%s' % (rnd, pid)
+out = '/tmp/seed%s-%s-out' % (rnd, pid)
 if not os.path.exists(wt):
     subprocess.check_call(['git', '-C', '/repo', 'worktree', 'add', '--detach', '-q', wt, 'HEAD'])
 os.makedirs(out, exist_ok=True)
+avoid = ""
+if rnd:
+    try:
+        m = json.load(open('/verif/seeded/%s/meta.json' % pid))
+        avoid = "\nAn earlier attempt already did the following, so choose a DIFFERENT mechanism, in a different function and preferably a different file, exercising a different part of the property: " + m.get('breaks', '')[:600] + "\n"
+    except Exception:
+        pass
 print(f"""You are testing how sensitive a verification effort is. Work ONLY inside the git worktree {wt} (a checkout of the Go project github.com/cosmos72/gomacro: a Go interpreter in pure Go, with REPL, debugger, macros) and the output directory {out}. Do NOT read or write anything under /verif or /repo, and do not look for other people's test harnesses: your work must be independent.
 
 The following property is supposed to hold for gomacro:
@@ -19,6 +27,7 @@ The following property is supposed to hold for gomacro:
   Statement: {prop['statement']}
   Quantified over: {prop['quantifier']['text']}
 
+{avoid}
 Your task: make a change to gomacro's non-test source that BREAKS this property, while
  (a) the project still compiles (`go build ./...`), and
  (b) the existing test suite passes exactly as before: `python3 /tmp/seedtools/baseline.py {wt}` must print missing=0 (it runs `go test ./...` and compares with the list of 947 tests known to pass; a few other tests fail already on the unchanged tree, that is expected).
